@@ -20,6 +20,11 @@
  *   rand:<seed>                           getrandom() stream
  *   tty:<role>                            isatty() answers yes for STDIN/STDOUT/STDERR
  *   clock:<seconds>                       wall clock and monotonic clock shifted by this offset
+ *
+ * Turnstile (env VERIF_TURN_REQ / VERIF_TURN_GO = paths of two fifos): before every
+ * tracked call the process announces itself on REQ and waits for one byte on GO.
+ * The simulator releases one process at a time, so the interleaving of several
+ * CLI processes working in one directory is decided by its seed and replayable.
  * calls: open read write mkdir opendir     roles: STDIN STDOUT STDERR INPUT OUTPUT DIR ANY
  *
  * Only descriptors 0,1,2 and files opened through RELATIVE paths are tracked;
@@ -72,6 +77,7 @@ static unsigned long long dirshuffle_seed = 0;
 static unsigned long long rand_state = 0x1234567;
 static int rand_on = 0;
 static int tty_role[R_N];
+static int turn_req = -1, turn_go = -1;
 static long long clock_offset = 0;
 
 static void logf_(const char *fmt, ...) {
@@ -171,6 +177,19 @@ static void init(void) {
         }
     }
     logf_("H verif_io 1");
+    {
+        const char *rq = getenv("VERIF_TURN_REQ"), *go = getenv("VERIF_TURN_GO");
+        if (rq && go && *rq && *go) {
+            long a = syscall(SYS_openat, AT_FDCWD, rq, O_WRONLY | O_CLOEXEC, 0);
+            long b = syscall(SYS_openat, AT_FDCWD, go, O_RDONLY | O_CLOEXEC, 0);
+            if (a >= 0 && b >= 0) {
+                long ha = syscall(SYS_fcntl, a, F_DUPFD_CLOEXEC, 1010), hb = syscall(SYS_fcntl, b, F_DUPFD_CLOEXEC, 1011);
+                if (ha >= 0) { syscall(SYS_close, a); a = ha; }
+                if (hb >= 0) { syscall(SYS_close, b); b = hb; }
+                turn_req = (int)a; turn_go = (int)b;
+            }
+        }
+    }
     const char *plan = getenv("VERIF_FAULTS");
     if (plan && *plan) {
         char *copy = strdup(plan);
@@ -187,6 +206,22 @@ static void init(void) {
 
 __attribute__((constructor)) static void ctor(void) { init(); }
 
+/* wait for the simulator's permission to perform the next tracked call */
+static void turnstile(void) {
+    if (turn_req < 0) return;
+    int saved = errno;
+    char c = 'r';
+    if (syscall(SYS_write, turn_req, &c, 1) == 1) {
+        long r;
+        do { r = syscall(SYS_read, turn_go, &c, 1); } while (r < 0 && errno == EINTR);
+    }
+    errno = saved;
+}
+
+__attribute__((destructor)) static void dtor(void) {
+    if (turn_req >= 0) { char c = 'x'; syscall(SYS_write, turn_req, &c, 1); }
+}
+
 static int role_of_fd(int fd) {
     if (fd < 0 || fd >= MAXFD) return R_OTHER;
     return fd_role[fd];
@@ -195,6 +230,7 @@ static int role_of_fd(int fd) {
 /* Decide what happens to the nth call of (call, role) that wants to move `want` bytes.
  * Returns: 0 = proceed with *allow bytes (maybe shortened); -1 = fail with errno set. */
 static int decide(int call, int role, size_t want, size_t *allow) {
+    turnstile();
     long nth = ++counter[call][role];
     *allow = want;
     for (int i = 0; i < n_nth; i++) {
@@ -360,8 +396,9 @@ ssize_t readv(int fd, const struct iovec *iov, int iovcnt) {
 
 int close(int fd) {
     init();
-    if (fd == log_fd) { errno = EBADF; return -1; }
+    if (fd == log_fd || (fd >= 0 && (fd == turn_req || fd == turn_go))) { errno = EBADF; return -1; }
     int role = role_of_fd(fd);
+    if (role != R_OTHER && fd != turn_req && fd != turn_go) turnstile();
     long r = syscall(SYS_close, fd);
     int e = errno;
     if (role != R_OTHER) {
